@@ -167,15 +167,20 @@ def gen_history(rng, nsigs=None, max_steps=12, widths=None, time_profile="mixed"
 
 
 def gap_history(rng, gap, nsteps_after=3):
-    """signals that stay quiet for `gap` time steps inside one block and then change"""
-    sigs = [Sig("b", 1), Sig("b", rng.choice([2, 8, 33])), Sig("r"), Sig("s"), Sig("b", 1)]
-    steps = [(0, [(0, "1"), (1, rand_bits(rng, sigs[1].width, 2)), (2, "1.5"), (3, "a"), (4, "0")])]
+    """signals that stay quiet for `gap` time steps inside one block and then change; signal 4 toggles every
+    1000 steps (enough data to be compressed), signal 5 changes once in the middle of the gap (little data at a
+    non-zero time index)"""
+    sigs = [Sig("b", 1), Sig("b", rng.choice([2, 8, 33])), Sig("r"), Sig("s"), Sig("b", 1), Sig("b", 4)]
+    steps = [(0, [(0, "1"), (1, rand_bits(rng, sigs[1].width, 2)), (2, "1.5"), (3, "a"), (4, "0"), (5, "0000")])]
     for k in range(1, gap):
-        steps.append((k, [(4, "01"[k % 2])] if k % 1000 == 0 else []))
+        ch = [(4, "01"[(k // 1000) % 2])] if k % 1000 == 0 else []
+        if k == gap // 2:
+            ch.append((5, "1x0z"))
+        steps.append((k, ch))
     for j in range(nsteps_after):
         k = gap + j
         steps.append((k, [(0, "01xz"[j % 4]), (1, rand_bits(rng, sigs[1].width, rng.choice([2, 4, 9]))),
-                          (2, "%d.25" % j), (3, "b%d" % j)]))
+                          (2, "%d.25" % j), (3, "b%d" % j), (5, format(j % 16, "04b"))]))
     return sigs, steps
 
 
@@ -251,7 +256,9 @@ def body_text(rng, sigs, idents, steps, implicit_first, ws="mixed", line_discipl
         if wrap:
             out.append("$end" + nl)
         if fancy and rng.random() < 0.1:
-            out.append("$comment some text #5 1! $end" + nl)
+            # comment bodies of every shape: text that looks like changes, nothing at all, `$end` on its own line
+            out.append(rng.choice(["$comment some text #5 1! $end", "$comment $end", "$comment" + nl + "$end",
+                                   "$comment" + nl + "  b1 ! " + nl + "$end", "$comment\t$end"]) + nl)
         if fancy and rng.random() < 0.05:
             out.append(rng.choice(["$dumpoff", "$dumpon"]) + nl + "$end" + nl)
         if fancy and rng.random() < 0.1:
@@ -275,6 +282,15 @@ def header_text(rng, sigs, idents, plain=False):
         w = s.width if s.tpe == "b" else (64 if s.tpe == "r" else 1)
         lines.append("$var %s %d %s v%d $end" % (kw, w, ident.decode("latin1"), i))
     lines.append("$upscope $end")
+    if not plain and rng.random() < 0.3:
+        # aliases: further variables with the identifier code of an existing one (same kind and width)
+        lines.append("$scope module alias $end")
+        for _ in range(rng.randint(1, 3)):
+            i = rng.randrange(len(sigs))
+            s = sigs[i]
+            w = s.width if s.tpe == "b" else (64 if s.tpe == "r" else 1)
+            lines.append("$var %s %d %s a%d $end" % (VAR_KW[s.tpe][0], w, idents[i].decode("latin1"), i))
+        lines.append("$upscope $end")
     lines.append("$enddefinitions $end")
     return "\n".join(lines).encode("latin1")
 
